@@ -109,9 +109,17 @@ func c20Scenario(p c20P, b Bounds) *Scenario {
 					k := nconn
 					lib, peer, pipe := NewPipe(PipeOpts{Name: fmt.Sprintf("conn%d", k), CloseUnblocksRecv: true})
 					pipes = append(pipes, pipe)
+					idle := name == "connidle"
 					vs.GoNamed(fmt.Sprintf("conn%d", k), func() {
 						vs.Event("env", "connect", fmt.Sprint(k))
 						acc.queue = append(acc.queue, lib)
+						if idle {
+							// a client that stays connected and silent: only the server side ends this connection
+							_, ok := peer.Recv()
+							vs.Note("client-got", fmt.Sprint(k), "", fmt.Sprint(ok))
+							peer.Close()
+							return
+						}
 						m := fmt.Sprintf("g%d", k)
 						if !peer.Send([]byte(fmt.Sprintf(`{"jsonrpc":"2.0","id":1,"method":%q}`, m))) {
 							return
@@ -138,7 +146,7 @@ func c20Scenario(p c20P, b Bounds) *Scenario {
 				}
 				for _, it := range p.Items {
 					switch it {
-					case "conn1", "conn2", "conn3":
+					case "conn1", "conn2", "conn3", "connidle":
 						connect(it, false)
 					case "connfail":
 						connect(it, true)
@@ -359,7 +367,7 @@ func (l *fakeListener) Addr() net.Addr { return &net.TCPAddr{} }
 func c20Scenarios(tier string) []*Scenario {
 	var out []*Scenario
 	q := tier == "quick"
-	events := []string{"conn1", "conn2", "connfail", "cancel", "fail-other", "fail-closed"}
+	events := []string{"conn1", "conn2", "connfail", "connidle", "cancel", "fail-other", "fail-closed"}
 	var subsets [][]string
 	n := len(events)
 	maxSize := 3
